@@ -103,6 +103,7 @@ func (sw *svcWorld) rtspConnect(name string, window int) *rtspClient {
 	sc.SetRemoteAddr(fmt.Sprintf("10.9.1.%d:5%04d", sw.nextAddr, sw.nextAddr))
 	sw.conns = append(sw.conns, cc, sc)
 	sw.svc.VerifRTSPAccept()(sc)
+	sw.w.Y("rtsp.connected") // lets the new session goroutine register on its own (stable task ids)
 	return &rtspClient{w: sw.w, name: name, c: cc, br: bufio.NewReaderSize(cc, 128<<10)}
 }
 
